@@ -28,7 +28,7 @@ The rule a registration uses is the MODEL's reading of the rule text the AddMatc
 C12's model of `_parseMatchRule` + the kwargs loop); it is printed as `rule=` and compared with the kwargs observed at
 the real `router.addMatch`.  Only when the text is outside the modelled domain the observed kwargs are used.
 `ruleholds <RULE> <type> <path> <iface> <member> <dest> <sender> <args>` -> 0 | 1   (`fullGen.holds`, a probe)
-`evalarg0` -> 0 | 1   (the switch generated from router.py)
+`evalarg0` -> 0 | 1   (C12's switch `Gen.Route.evaluatesArg0ns`, generated from router.py)
 -/
 open Txdbus.BusRoute
 open Txdbus.Route (Str Arg RuleArgs)
@@ -185,25 +185,16 @@ structure St where
   cfg : Cfg FullRule := fullGen
   s : State FullRule := {}
 
-def isAddMatchCall (m : Msg) : Bool :=
-  m.mtype == .call && m.dest == some busName && m.member == some "AddMatch".toList
-
-/-- The operation the model runs and the `rule=` suffix: the registration follows the model's reading of the rule
-text (see the header). -/
+/-- The operation the model runs (`textOp`, Bus/RouteFull.lean: the registration follows the model's reading of the
+rule text in the call) and the `rule=` suffix. -/
 def modelOp (m : Msg) (op : BusOp FullRule) : BusOp FullRule × String :=
-  match op with
-  | .addMatch observed =>
-    match (ruleTextOf m).map addMatchOp with
-    | some (some (.addMatch a)) => (.addMatch a, " rule=" ++ showRule a)
-    | some (some _) => (.exec [], " rule=valueerror")
-    | _ => (.addMatch observed, " rule=" ++ showRule observed)
-  | .exec [] =>
-    if isAddMatchCall m then
-      match (ruleTextOf m).map addMatchOp with
-      | some (some (.addMatch a)) => (.addMatch a, " rule=" ++ showRule a)
-      | _ => (op, "")
-    else (op, "")
-  | _ => (op, "")
+  let op' := textOp m op
+  let suffix :=
+    match op, op' with
+    | _, .addMatch a => " rule=" ++ showRule a
+    | .addMatch _, _ => " rule=valueerror"
+    | _, _ => ""
+  (op', suffix)
 
 def viewMsg? : List String → Option Msg
   | [ty, path, iface, member, dest, sender, args] => do
@@ -218,7 +209,7 @@ def stepLine (st : St) (line : String) : St × String :=
   match Driver.words line with
   | ["reset"] => ({}, "ok")
   | ["reset", "orig"] => ({ cfg := fullOriginalGen }, "ok")
-  | ["evalarg0"] => (st, if Txdbus.Gen.BusRoute.evaluatesArg0ns then "1" else "0")
+  | ["evalarg0"] => (st, if Txdbus.Gen.Route.evaluatesArg0ns then "1" else "0")
   | "ruleholds" :: ts =>
     match rule? ts with
     | none => (st, "error:parse")
